@@ -26,6 +26,14 @@ class _Dist:
         return (SymTensor.array("grad"),) if self.nonempty else ()
 
 
+def _real_step(ds):
+    """the real `DistributedShampoo.step` function body: torch.optim.Optimizer.__init__ patches the CLASS attribute `step` with a
+    profiling/hook wrapper the first time any optimizer is constructed in the process; the harness object is a bare instance
+    without hook tables, so the wrapper (functools.wraps) is peeled off and the original function is called."""
+    import inspect
+    return inspect.unwrap(ds.DistributedShampoo.step)
+
+
 def _mk(gi, graft):
     from distributed_shampoo import shampoo_types as st
     g = {
@@ -70,7 +78,7 @@ def run(case, tier):
                         opt._device = "cpu"
                         opt._per_group_step = lambda *a: calls.append(a)
                         with rebind([(ds, "torch", FakeTorch())]):
-                            opt.step()
+                            _real_step(ds)(opt)
                         return groups, sls, calls
 
                     paths = Explorer().run(fn)
